@@ -33,7 +33,9 @@ try:
     out["demo_pristine_exit"] = a.returncode
     out["demo_patched_exit"] = b.returncode
     out["demo_patched_tail"] = (b.stdout + b.stderr)[-300:]
-    out["confirmed"] = bool(out["patch_applies"] and a.returncode == 0 and b.returncode == 1)
+    harmless = meta.get("kind") == "harmless"
+    out["kind"] = "harmless" if harmless else "breaking"
+    out["confirmed"] = bool(out["patch_applies"] and a.returncode == 0 and b.returncode == (0 if harmless else 1))
     for c in checks:
         t0 = time.time()
         env2 = dict(env, VERIF_REPO_SRC=os.path.join(scratch, "src"), VERIF_EVIDENCE_DIR=os.path.join(scratch, "evidence"),
@@ -41,6 +43,7 @@ try:
         r = subprocess.run([os.path.join(HERE, "check"), c, "--tier", tier], capture_output=True, text=True, env=env2, cwd=HERE, timeout=3600)
         lines = [l for l in r.stdout.splitlines() if l.startswith("VIOLATION") or l.startswith("KNOWN-FINDING") or l.startswith("[")]
         out[f"check_{c}"] = {"exit": r.returncode, "caught": r.returncode == 1 and any(l.startswith("VIOLATION") for l in lines),
+                             "quiet": r.returncode == 0 and not any(l.startswith("VIOLATION") for l in lines),
                              "lines": lines[-4:], "wall_s": round(time.time() - t0, 1)}
 finally:
     shutil.rmtree(os.path.join(HERE, "coq", "generated", "seed_" + os.path.basename(scratch)), ignore_errors=True)
